@@ -9,6 +9,8 @@ level `nothing` (the reference), at the highest level, at random levels, and wit
 commands injected between read chunks (mid-frame included); wire bytes, handler invocations,
 request results, session end and shutdown behaviour must be identical.
 """
+import re
+
 import vlib
 import fuzzgen as fg
 
@@ -88,12 +90,70 @@ def run(ctx):
                                   f'{kind}: observable behaviour differs from the run at level nothing',
                                   {'cases': [[base, v]], 'reference(level nothing)': ref, 'got': got})
     ctx.oblige('correspondence:levels-and-level-changes-unobservable', diffs == 0, f'{diffs} differing runs')
+    task_stats = client_task_family(ctx)
     ctx.coverage.update({
-        'evaluations': len(lines),
+        'evaluations': len(lines) + task_stats.get('runs', 0),
         'distinct_nontrivial': len(nontrivial),
         'rule': 'groups = one scripted stream (valid / mutated / badly framed frames or raw bytes, chunked) run at level nothing plus variants: highest level, a random level, and a level-change command injected at chunk positions (quick: 3 random positions; thorough: every position); non-trivial = the reference run produced wire output or handler calls; distinct by stream',
         'samples': [[groups[0][0][:160], groups[0][1][-1][0][:160], out[0][:200]]],
         'input_classes': kinds,
         'groups': len(groups),
+        'client_task_family': task_stats,
         'exhaustive': False,
     })
+
+
+def client_task_family(ctx):
+    """the whole client channel task (wait-for-enable, connect, retry waits, in-flight, shutdown) driven by
+    event scripts (harness `client`, the C10-C13 interpreter over the real ClientLoop under paused time):
+    the same script at decode level min vs max, and with set_decode_level commands (through the real
+    Channel) injected at script positions, must give the same listener trace, wire log, completions
+    and end state. Queue capacity 16 so that an extra queued setting never changes what is accepted."""
+    from checks import clientlib as cl
+    r = ctx.rng
+    n = 2000 if ctx.quick() else 20000
+    groups = []
+    if ctx.replay and 'client_cases' in ctx.replay:
+        for base, var, dec in ctx.replay['client_cases']:
+            groups.append((base, [(var, dec, 'replay')]))
+    elif ctx.replay:
+        return {}
+    else:
+        for _ in range(n):
+            cfg = cl.default_cfg(r, cap=16)
+            script = cl.gen_random(r, cfg, r.choice([6, 10, 14]), weights={'L': 0})
+            base = cl.to_line((cfg, script))
+            vs = [(base, 'max', 'max')]
+            pos = list(range(len(script) + 1))
+            if ctx.quick() and len(pos) > 3:
+                pos = sorted(r.sample(pos, 3))
+            for p in pos:
+                v = script[:p] + [('L', r.choice(['min', 'max']), 'f')] + script[p:]
+                vs.append((cl.to_line((cfg, v)), r.choice(['min', 'max']), f'change@{p}'))
+            groups.append((base, vs))
+    strip = lambda line: re.sub(r'#\d+', '', cl.canon(line))
+    by_dec = {'min': [], 'max': []}
+    for base, vs in groups:
+        by_dec['min'].append(base)
+        for v, dec, _ in vs:
+            by_dec[dec].append(v)
+    res = {}
+    for dec, lines in by_dec.items():
+        uniq = sorted(set(lines))
+        out = ctx.harness('client', uniq, args=['--decode', dec], shards=8, timeout=1500)
+        res[dec] = dict(zip(uniq, out))
+    diffs = 0
+    kinds = {}
+    for base, vs in groups:
+        ref = strip(res['min'][base])
+        for v, dec, kind in vs:
+            got = strip(res[dec][v])
+            kinds[kind.split('@')[0]] = kinds.get(kind.split('@')[0], 0) + 1
+            if got != ref:
+                diffs += 1
+                if diffs <= 2:
+                    ctx.violation(f'client-task.{kind.split("@")[0]}.observable-differs',
+                                  f'{kind} (decode {dec}): listener trace / wire / completions differ from the run at level nothing without level changes',
+                                  {'client_cases': [[base, v, dec]], 'reference': ref, 'got': got})
+    ctx.oblige('correspondence:client-task-levels-and-level-changes-unobservable', diffs == 0, f'{diffs} differing runs')
+    return {'scripts': len(groups), 'runs': sum(len(v) for v in by_dec.values()), 'kinds': kinds}
